@@ -348,4 +348,273 @@ theorem C11_frame_entryReplace (f f' : Field) (p j : Nat) (rel e : RNode) (he : 
     · intro ht
       simp [ht.1, ht.2]
 
+/-! ### an entry / substvar that a call does not address keeps its node -/
+
+/-- the position map of `Entry::remove` at `p` on the root -/
+def rmEntryRemap (f : Field) (p : Nat) : Remap :=
+  match entryRemove f.kids p with
+  | .ok c => c.remap
+  | .panic _ => Remap.id
+
+/-- the position map of `Relation::remove` at `(p, q)` on the root: the identity, unless the entry
+    goes with its last relation -/
+def rmRelRemap (f : Field) (p q : Nat) : Remap :=
+  match relationRemoveIn (f.entryKids p) q with
+  | .ok c =>
+    if !(((f.entryEdit p c).entryKids p).any (isNodeOf .RELATION)) then rmEntryRemap (f.entryEdit p c) p
+    else Remap.id
+  | .panic _ => Remap.id
+
+/-- the root child a call addresses (through a handle at `p`, or `get_entry(i)`) -/
+def _root_.Deb822Verif.Rel.Edit.Op.target (f : Field) : Op → Option Nat
+  | .setArchqual p _ _ => some p
+  | .setVersion p _ _ => some p
+  | .dropConstraint p _ => some p
+  | .setArchitectures p _ _ => some p
+  | .addProfile p _ _ => some p
+  | .entryPush p _ => some p
+  | .entryReplace p _ _ => some p
+  | .removeRelationAt p _ => some p
+  | .removeRelation i _ => nthNode .ENTRY f.kids i
+  | .insert _ _ => none
+  | .push _ => none
+  | .replace i _ => nthNode .ENTRY f.kids i
+  | .removeEntry i => nthNode .ENTRY f.kids i
+  | .removeEntryAt p => some p
+
+/-- where a call moves the root's children (the map the model's handles follow) -/
+def _root_.Deb822Verif.Rel.Edit.Op.rootRemap (f : Field) : Op → Remap
+  | .removeRelationAt p q => rmRelRemap f p q
+  | .removeRelation i j =>
+    (match nthNode .ENTRY f.kids i with
+      | some p => (match nthNode .RELATION (f.entryKids p) j with
+        | some q => rmRelRemap f p q
+        | none => Remap.id)
+      | none => Remap.id)
+  | .insert i e => (relationsInsert f.kids i e).remap
+  | .push e => (relationsPush f.kids e).remap
+  | .replace i _ =>
+    (match nthNode .ENTRY f.kids i with
+      | some p => Remap.comp (Remap.ins p 1) (Remap.cut p (p + 1))
+      | none => Remap.id)
+  | .removeEntry i =>
+    (match nthNode .ENTRY f.kids i with
+      | some p => rmEntryRemap f p
+      | none => Remap.id)
+  | .removeEntryAt p => rmEntryRemap f p
+  | _ => Remap.id
+
+theorem item_not_sep (k : Kind) (hk : k ≠ .ENTRY ∧ k ≠ .SUBSTVAR) (x : RNode) (hi : isItemNode x = true) :
+    isSepOf k x = false := by
+  simp only [isItemNode, Bool.and_eq_true, Bool.or_eq_true, beq_iff_eq] at hi
+  simp only [isSepOf, isWsElem, Bool.or_eq_false_iff, beq_eq_false_iff_ne]
+  rcases hi.2 with e | e <;> rw [e] <;> refine ⟨⟨by decide, by decide⟩, ?_⟩
+  · exact fun h => hk.1 h.symm
+  · exact fun h => hk.2 h.symm
+
+theorem getElem?_lt {α} {l : List α} {i : Nat} {x : α} (h : l[i]? = some x) : i < l.length := by
+  rcases Nat.lt_or_ge i l.length with h' | h'
+  · exact h'
+  · rw [List.getElem?_eq_none_iff.2 h'] at h; cases h
+
+/-- `Entry::remove` at `p`: an ENTRY / SUBSTVAR node elsewhere stays, the identical node -/
+theorem keeps_entryRemove (cs : List RNode) (p : Nat) (c : Cut) (h : entryRemove cs p = .ok c)
+    (p0 : Nat) (x : RNode) (hx : cs[p0]? = some x) (hi : isItemNode x = true) (hne : p0 ≠ p) :
+    ∃ p', c.remap p0 = some p' ∧ c.kids[p']? = some x := by
+  have hf := faithful_entryRemove cs p c h
+  obtain ⟨A, wsA, wsB, B, rfl, hA, hB, hsep⟩ := C11_gone_entryRemove cs p c h
+  have hp0 := getElem?_lt hx
+  have hns := item_not_sep .COMMA (by decide) x hi
+  have hlA := congrArg List.length hA
+  have hlB := congrArg List.length hB
+  simp only [List.length_take, List.length_drop, List.length_append] at hlA hlB
+  suffices hs : ∃ p', Remap.cut A.length (cs.length - B.length) p0 = some p' by
+    obtain ⟨p', hp'⟩ := hs
+    exact ⟨p', hp', hf p0 x hx p' hp'⟩
+  simp only [Remap.cut]
+  split
+  · exact ⟨_, rfl⟩
+  · split
+    · rename_i h1 h2
+      exfalso
+      have hmem : x ∈ wsA ++ wsB := by
+        rcases Nat.lt_or_ge p0 p with hlt | hge
+        · have : (cs.take p)[p0]? = some x := by rw [List.getElem?_take_of_lt hlt]; exact hx
+          rw [hA, List.getElem?_append_right (by omega)] at this
+          exact List.mem_append_left _ (List.mem_of_getElem? this)
+        · have : (cs.drop (p + 1))[p0 - (p + 1)]? = some x := by
+            rw [List.getElem?_drop, show p + 1 + (p0 - (p + 1)) = p0 by omega]; exact hx
+          rw [hB, List.getElem?_append_left (by omega)] at this
+          exact List.mem_append_right _ (List.mem_of_getElem? this)
+      have := hsep.1 x hmem
+      rw [hns] at this; cases this
+    · exact ⟨_, rfl⟩
+
+theorem keeps_removeEntryAt (f f' : Field) (p : Nat) (h : f.removeEntryAt p = .ok f')
+    (p0 : Nat) (x : RNode) (hx : f.kids[p0]? = some x) (hi : isItemNode x = true) (hne : p0 ≠ p) :
+    ∃ p', rmEntryRemap f p p0 = some p' ∧ f'.kids[p']? = some x := by
+  unfold Field.removeEntryAt at h
+  unfold rmEntryRemap
+  cases hc : entryRemove f.kids p with
+  | panic s => rw [hc] at h; simp [Outcome.map] at h
+  | ok c =>
+    rw [hc] at h
+    simp only [Outcome.map, Outcome.ok.injEq] at h
+    rw [← h]
+    exact keeps_entryRemove f.kids p c hc p0 x hx hi hne
+
+theorem replaceAt_other (cs : List RNode) (p : Nat) (y : RNode) (p0 : Nat) (hne : p0 ≠ p) (hp : p < cs.length) :
+    (replaceAt cs p [y])[p0]? = cs[p0]? := by
+  have : replaceAt cs p [y] = cs.set p y := by
+    simp only [replaceAt]
+    rw [List.set_eq_take_append_cons_drop, if_pos hp]; simp
+  rw [this, List.getElem?_set_ne (Ne.symm hne)]
+
+theorem keeps_entryEdit (f : Field) (p : Nat) (c : Cut) (lost : Nat → Option Str) (p0 : Nat) (hne : p0 ≠ p) :
+    (f.entryEdit p c lost).kids[p0]? = f.kids[p0]? := by
+  simp only [Field.entryEdit]
+  split
+  · rename_i e he
+    exact replaceAt_other _ _ _ _ hne (getElem?_lt he)
+  · rfl
+
+theorem keeps_relEdit (f : Field) (p q : Nat) (g : RNode → RNode) (p0 : Nat) (hne : p0 ≠ p) :
+    (f.relEdit p q g).kids[p0]? = f.kids[p0]? := by
+  simp only [Field.relEdit]
+  split
+  · rename_i e he
+    split
+    · exact replaceAt_other _ _ _ _ hne (getElem?_lt he)
+    · rfl
+  · rfl
+
+theorem keeps_removeRelationAt (f f' : Field) (p q : Nat) (h : f.removeRelationAt p q = .ok f')
+    (p0 : Nat) (x : RNode) (hx : f.kids[p0]? = some x) (hi : isItemNode x = true) (hne : p0 ≠ p) :
+    ∃ p', rmRelRemap f p q p0 = some p' ∧ f'.kids[p']? = some x := by
+  unfold Field.removeRelationAt at h
+  unfold rmRelRemap
+  cases hc : relationRemoveIn (f.entryKids p) q with
+  | panic s => rw [hc] at h; simp [Outcome.bind] at h
+  | ok c =>
+    rw [hc] at h
+    simp only [Outcome.bind] at h
+    have hx1 : (f.entryEdit p c).kids[p0]? = some x := by rw [keeps_entryEdit f p c _ p0 hne]; exact hx
+    simp only
+    split at h
+    · rename_i hb
+      rw [if_pos hb]
+      exact keeps_removeEntryAt _ f' p h p0 x hx1 hi hne
+    · rename_i hb
+      rw [if_neg hb]
+      simp only [Outcome.ok.injEq] at h
+      exact ⟨p0, rfl, by rw [← h]; exact hx1⟩
+
+theorem keeps_insert (cs : List RNode) (i : Nat) (e : RNode) (p0 : Nat) (x : RNode) (hx : cs[p0]? = some x) :
+    ∃ p', (relationsInsert cs i e).remap p0 = some p' ∧ (relationsInsert cs i e).kids[p']? = some x := by
+  have hf := faithful_relationsInsert cs i e
+  suffices hs : ∃ p', (relationsInsert cs i e).remap p0 = some p' by
+    obtain ⟨p', hp'⟩ := hs
+    exact ⟨p', hp', hf p0 x hx p' hp'⟩
+  have hins : ∀ a k, ∃ p', Remap.ins a k p0 = some p' := by
+    intro a k; simp only [Remap.ins]; split <;> exact ⟨_, rfl⟩
+  unfold relationsInsert
+  split
+  · exact hins _ _
+  · split
+    · exact hins _ _
+    · simp only
+      split <;> exact hins _ _
+
+theorem replace_remap (a p0 : Nat) (h : p0 ≠ a) :
+    Remap.comp (Remap.ins a 1) (Remap.cut a (a + 1)) p0 = some p0 := by
+  unfold Remap.comp Remap.cut Remap.ins
+  by_cases h1 : p0 < a
+  · simp [h1]
+  · have h2 : ¬ p0 < a + 1 := by omega
+    simp [h1, h2]
+    rw [if_neg (by omega)]
+    congr 1; omega
+
+/-- ONE call, every operation of `Op`: a root child that is an ENTRY or SUBSTVAR node and is not the
+    entry the call addresses survives the call and is the identical node (same kind, same children,
+    hence the same text) at the position the call's position map gives -/
+theorem C11_step_untouched (f f' : Field) (op : Op) (h : step f op = .ok f')
+    (p0 : Nat) (x : RNode) (hx : f.kids[p0]? = some x) (hi : isItemNode x = true)
+    (hne : op.target f ≠ some p0) :
+    ∃ p', op.rootRemap f p0 = some p' ∧ f'.kids[p']? = some x := by
+  have hid : ∀ p (g : Field), (p0 ≠ p → g.kids[p0]? = f.kids[p0]?) → some p ≠ some p0 → Outcome.ok g = Outcome.ok f' →
+      ∃ p', Remap.id p0 = some p' ∧ f'.kids[p']? = some x := by
+    intro p g hg hn he
+    simp only [Outcome.ok.injEq] at he
+    refine ⟨p0, rfl, ?_⟩
+    rw [← he, hg (fun e => hn (by rw [e]))]; exact hx
+  cases op with
+  | setArchqual p q aq => exact hid p _ (keeps_relEdit f p q _ p0) hne h
+  | setVersion p q vc => exact hid p _ (keeps_relEdit f p q _ p0) hne h
+  | dropConstraint p q => exact hid p _ (keeps_relEdit f p q _ p0) hne h
+  | setArchitectures p q as => exact hid p _ (keeps_relEdit f p q _ p0) hne h
+  | addProfile p q g => exact hid p _ (keeps_relEdit f p q _ p0) hne h
+  | entryPush p rel => exact hid p _ (keeps_entryEdit f p _ _ p0) hne h
+  | entryReplace p j rel =>
+    have hn : p0 ≠ p := fun e => hne (by rw [e]; rfl)
+    simp only [step, Field.entryReplaceAt] at h
+    split at h
+    · cases h
+    · rename_i q hq
+      cases hr : entryReplaceIn (f.entryKids p) q rel with
+      | panic s => rw [hr] at h; simp [Outcome.map] at h
+      | ok kr =>
+        rw [hr] at h
+        simp only [Outcome.map, Outcome.ok.injEq] at h
+        refine ⟨p0, rfl, ?_⟩
+        rw [← h, keeps_entryEdit _ p _ _ p0 hn, keeps_entryEdit _ p _ _ p0 hn]; exact hx
+  | removeRelationAt p q =>
+    exact keeps_removeRelationAt f f' p q h p0 x hx hi (fun e => hne (by rw [e]; rfl))
+  | removeRelation i j =>
+    simp only [step, Field.removeRelation] at h
+    simp only [Op.target] at hne
+    simp only [Op.rootRemap]
+    split at h
+    · cases h
+    · rename_i p hp
+      split at h
+      · cases h
+      · rename_i q hq
+        simp only [hp, hq]
+        exact keeps_removeRelationAt f f' p q h p0 x hx hi (fun e => hne (by rw [hp, e]))
+  | insert i e =>
+    simp only [step, Outcome.ok.injEq] at h
+    rw [← h]
+    exact keeps_insert f.kids i e p0 x hx
+  | push e =>
+    simp only [step, Outcome.ok.injEq] at h
+    rw [← h]
+    exact keeps_insert f.kids _ e p0 x hx
+  | replace i e =>
+    simp only [step] at h
+    obtain ⟨A, old, B, hk, hk', hn⟩ := frame_replace f f' i e h
+    simp only [Op.target, hn] at hne
+    have hn0 : p0 ≠ A.length := fun e => hne (by rw [e])
+    simp only [Op.rootRemap, hn]
+    refine ⟨p0, ?_, ?_⟩
+    · exact replace_remap _ _ hn0
+    · rw [hk'] ; rw [hk] at hx
+      by_cases h1 : p0 < A.length
+      · rw [List.getElem?_append_left h1] at hx ⊢; exact hx
+      · rw [List.getElem?_append_right (by omega)] at hx ⊢
+        have : p0 - A.length = (p0 - A.length - 1) + 1 := by omega
+        rw [this] at hx ⊢
+        simpa using hx
+  | removeEntry i =>
+    simp only [step, Field.removeEntry] at h
+    simp only [Op.target] at hne
+    simp only [Op.rootRemap]
+    split at h
+    · rename_i p hp
+      simp only [hp]
+      exact keeps_removeEntryAt f f' p h p0 x hx hi (fun e => hne (by rw [hp, e]))
+    · cases h
+  | removeEntryAt p =>
+    exact keeps_removeEntryAt f f' p h p0 x hx hi (fun e => hne (by rw [e]; rfl))
+
 end Deb822Verif.Props.C11Frames
